@@ -607,6 +607,9 @@ func (i *interpreter) mapstructureDecode(fr *frame, src, dst iface) value {
 	x := i.x
 	dm, ok := src.v.(*docMap)
 	if !ok {
+		if mapIsNil(src.v) {
+			return iface{} // a nil map (the raw map of a null document): nothing to decode
+		}
 		panic(unsupported(fmt.Sprintf("mapstructure.Decode from %T", src.v)))
 	}
 	pt, ok := dst.t.Underlying().(*types.Pointer)
